@@ -79,6 +79,31 @@ const EV_MASKS: [&str; 6] = ["120013", "100013", "13", "3", "17", "21"];
 
 pub struct GenText { pub entries: Vec<Entry>, pub text: String }
 
+static SYNTH_MASKS: std::sync::atomic::AtomicU64 = std::sync::atomic::AtomicU64::new(0);
+fn out_synth() { SYNTH_MASKS.fetch_add(1, std::sync::atomic::Ordering::Relaxed); }
+
+fn synth_key_mask(rng: &mut Rng) -> String {
+  // bits of a full keyboard (words most significant first, as the kernel prints them)
+  let base: Vec<u64> = KEY_MASKS[rng.below(2)].split_whitespace().map(|w| u64::from_str_radix(w, 16).unwrap_or(0)).collect();
+  let nw = base.len();
+  let mut bits: Vec<usize> = vec![];
+  for (wi, w) in base.iter().enumerate() { for b in 0..64 { if w & (1u64 << b) != 0 { bits.push((nw - 1 - wi) * 64 + b); } } }
+  let keep = match rng.below(4) { 0 => rng.range(0, bits.len()), 1 => rng.range(14, 28), 2 => rng.range(17, 23), _ => rng.range(0, 40) }.min(bits.len());
+  let mut chosen = rng.sample(&bits, keep);
+  if rng.chance(1, 2) {
+    for _ in 0..rng.range(1, 3) {
+      let w = rng.below(nw.max(2));
+      let b = match rng.below(4) { 0 => 63, 1 => 0, _ => rng.below(64) };
+      let pos = w * 64 + b;
+      if !chosen.contains(&pos) { chosen.push(pos); }
+    }
+  }
+  let top = chosen.iter().map(|p| p / 64).max().unwrap_or(0);
+  let mut words = vec![0u64; top + 1];
+  for p in &chosen { words[p / 64] |= 1u64 << (p % 64); }
+  words.iter().rev().map(|w| format!("{:x}", w)).collect::<Vec<_>>().join(" ")
+}
+
 pub fn gen_text(rng: &mut Rng, corpus: &[Entry]) -> GenText {
   let n = rng.range(1, 9);
   let mut entries: Vec<Entry> = vec![];
@@ -106,6 +131,10 @@ pub fn gen_text(rng: &mut Rng, corpus: &[Entry]) -> GenText {
     next_event += 1;
     if rng.chance(1, 3) { let nm = *rng.pick(&NAMES); e.set("N: Name=", &format!("\"{}\"", nm)); }
     if rng.chance(1, 4) { let km = *rng.pick(&KEY_MASKS); e.set("B: KEY=", km); }
+    // a synthesised key bitmap: a random subset of the keys of a real keyboard (so every count of keys occurs, the
+    // counts around any threshold of the heuristic included), plus now and then a few keys anywhere in the bitmap,
+    // the top bit of a word included
+    else if rng.chance(1, 5) { let km = synth_key_mask(rng); e.set("B: KEY=", &km); out_synth(); }
     if rng.chance(1, 4) { let em = *rng.pick(&EV_MASKS); e.set("B: EV=", em); }
     // missing fields: anything but the I: header
     for f in ["N: Name=", "S: Sysfs=", "B: EV=", "B: KEY=", "P: Phys=", "U: Uniq=", "H: Handlers=", "B: PROP=", "B: MSC=", "B: LED="] {
@@ -493,6 +522,7 @@ pub fn run(opts: &Opts) -> i32 {
       }
     }
   }
+  out.add("synthesised_key_bitmaps", SYNTH_MASKS.load(std::sync::atomic::Ordering::Relaxed));
   out.write(opts);
   if out.n_violations() > 0 { 1 } else { 0 }
 }
